@@ -43,6 +43,15 @@ def eh_targets(f, e):
     return out
 
 
+def _uncaught_edge(f, b, s):
+    """the try-dispatch block's edge that stands for 'no handler matched': the exception leaves the function,
+    which is not a normal exit"""
+    if b.term and b.term.get("k") == "CXXTryStmt":
+        lab = f.blocks[s].label
+        return not (lab and lab.get("k") == "catch")
+    return False
+
+
 def succ_ids(b, eh=True):
     out = [s for s in b.succs if s is not None]
     if eh:
@@ -204,6 +213,9 @@ def search(f, start, goal, stop=None, edge_ok=None, eh=True, include_start=False
                     if np not in seen:
                         seen[np] = pos
                         dq.append(np)
+            if e.kind == "stmt" and e.node.get("k") == "throw" and "root" in e.raw:
+                cut = True      # control does not continue after a throw (clang's CFG routes the block to EXIT)
+                break
             i += 1
         if cut:
             continue
@@ -211,6 +223,8 @@ def search(f, start, goal, stop=None, edge_ok=None, eh=True, include_start=False
             return back(pos, len(b.elems))
         for si, s in enumerate(b.succs):
             if s is None:
+                continue
+            if _uncaught_edge(f, b, s):
                 continue
             if edge_ok is not None and not edge_ok(b, si):
                 continue
@@ -309,8 +323,17 @@ class Forward:
                     for t in eh_targets(f, e):
                         self._merge(t, est, work, inq)
                 st = self.transfer(st, e)
+                if e.kind == "stmt" and e.node.get("k") == "throw" and "root" in e.raw:
+                    thrown = True
+                    break
+            else:
+                thrown = False
+            if thrown or b.raw.get("noreturn"):
+                continue        # a throw / noreturn call does not reach the block's CFG successors
             for si, s in enumerate(b.succs):
                 if s is None:
+                    continue
+                if _uncaught_edge(f, b, s):
                     continue
                 out = st
                 if self.edge is not None:
